@@ -114,6 +114,85 @@ func mbRandomScenario(rng *rand.Rand) *mbScenario {
 	return sc
 }
 
+// mbSupervisionScenario is the mailbox-level shape of a supervised failure: the handler of a user message pauses its own
+// mailbox (Context.failed) with mail queued behind it, and the supervisor's answer - system messages whose handlers
+// pause and resume the mailbox - arrives from another goroutine at any moment, in particular while the consumer is on
+// its way out.  At rest the mailbox must be unpaused with everything handled.
+func mbSupervisionScenario(rng *rand.Rand) *mbScenario {
+	sc := &mbScenario{Callers: map[string][][]string{}, MsgScript: map[string][][]string{}}
+	n := 0
+	user := func(script [][]string) string {
+		n++
+		id := fmt.Sprintf("m%d", n)
+		sc.MsgScript[id] = script
+		return id
+	}
+	system := func(script [][]string) string {
+		n++
+		id := fmt.Sprintf("y%d", n)
+		sc.Sys = append(sc.Sys, id)
+		sc.MsgScript[id] = script
+		return id
+	}
+	var s1 [][]string
+	for k := 0; k < rng.Intn(2); k++ {
+		s1 = append(s1, []string{"enq", user(nil)})
+	}
+	s1 = append(s1, []string{"enq", user([][]string{{"pause"}})}) // the failing message
+	for k := 0; k < 1+rng.Intn(3); k++ {
+		s1 = append(s1, []string{"enq", user(nil)})
+	}
+	sc.Callers["s1"] = s1
+	// the supervisor's answer: (pause command,) resume command - or a second pause/resume pair after an escalation
+	var sup [][]string
+	if rng.Intn(2) == 0 {
+		sup = append(sup, []string{"enq", system([][]string{{"pause"}})})
+	}
+	sup = append(sup, []string{"enq", system([][]string{{"resume"}})})
+	if rng.Intn(3) == 0 {
+		sup = append(sup, []string{"enq", system(nil)})
+	}
+	sc.Callers["s2"] = sup
+	if rng.Intn(3) == 0 {
+		sc.Callers["s3"] = [][]string{{"enq", user(nil)}, {"enq", system(nil)}}
+	}
+	for i := 1; i <= 64; i++ {
+		sc.Pool = append(sc.Pool, fmt.Sprintf("c%d", i))
+	}
+	sc.RingSize = []int64{1, 2, 4, 256}[rng.Intn(4)]
+	return sc
+}
+
+// mbSupervisionTraces runs n supervision-shaped scenarios under seeded fine-grained schedules.
+func mbSupervisionTraces(c *core.Ctx, n int) ([]*Trace, bool) {
+	rng := rand.New(rand.NewSource(c.Seed*313 + 7))
+	var traces []*Trace
+	var mu sync.Mutex
+	var wg sync.WaitGroup
+	sem := make(chan struct{}, 12)
+	for i := 0; i < n; i++ {
+		sc := mbSupervisionScenario(rng)
+		wg.Add(1)
+		sem <- struct{}{}
+		go func(i int, sc *mbScenario) {
+			defer wg.Done()
+			defer func() { <-sem }()
+			run := runMailboxScenario(sc, nil, c.Seed*104729+int64(i))
+			mu.Lock()
+			defer mu.Unlock()
+			if run.Stuck != "" {
+				c.Broken("supervision-shaped mailbox scenario %d: controller stuck: %s", i, run.Stuck)
+				return
+			}
+			c.Add("evaluations", 1)
+			c.Add("replayed_steps", int64(run.Steps))
+			traces = append(traces, &Trace{Events: run.Events, Class: "mailbox-supervision-shape", Name: fmt.Sprintf("mbsup#%d", i), Scenario: map[string]any{"scenario": sc, "seed": c.Seed*104729 + int64(i)}})
+		}(i, sc)
+	}
+	wg.Wait()
+	return traces, !c.IsBroken()
+}
+
 func checkC01(c *core.Ctx) {
 	dir, err := c.SpecDir("mailbox")
 	if err != nil {
